@@ -52,6 +52,7 @@ type FuncResult struct {
 	Nodes     int
 	vc        *VC
 	entry     *Node
+	Called    []*ssa.Function // callees whose contracts were assumed
 }
 
 func (vc *VC) setupRoot(fn *ssa.Function) (*Frame, *Node) {
@@ -73,6 +74,11 @@ func (vc *VC) setupRoot(fn *ssa.Function) (*Frame, *Node) {
 		}
 	}
 	for _, fv := range fn.FreeVars {
+		if ft := fv.Type().(*types.Pointer).Elem(); !isAggregate(ft) && !isArrayType(ft) && fvReadOnly(fv) {
+			lv := vc.addrOf(fr, entry, fv)
+			entry.assume(vc.valueFact(entry.env, vc.load(entry.env, lv), ft))
+			continue
+		}
 		t := vc.fresh("fv."+fv.Name(), "Int")
 		fr.regs[fv] = t
 		entry.assume(sAnd(app("<", "0", t), vc.isAllocated(entry.env, t)))
@@ -81,7 +87,9 @@ func (vc *VC) setupRoot(fn *ssa.Function) (*Frame, *Node) {
 			if o == fv {
 				break
 			}
-			entry.assume(sNot(sEq(fr.regs[o], t)))
+			if ot, ok := fr.regs[o]; ok {
+				entry.assume(sNot(sEq(ot, t)))
+			}
 		}
 		// captured receiver/pointer variables hold non-nil values when the parent is a method: not assumed
 	}
@@ -97,6 +105,10 @@ func (vc *VC) ghostAt(fr *Frame, n *Node, where, callee string, ord int, res ...
 			continue
 		}
 		sc := vc.specCtx(fr, n, n.env)
+		// actual arguments of the anchoring call, by the callee's parameter names: arg_<name>
+		for k, v := range fr.ghostArgs {
+			sc.names["arg_"+k] = v
+		}
 		if len(res) == 1 && res[0] != nil {
 			// results of the anchoring call: result0.., err
 			var terms []string
@@ -149,17 +161,26 @@ func (vc *VC) atReturn(fr *Frame, n *Node, results []string, pos token.Pos) {
 				continue
 			}
 			j++
-			f, err := sc.formula(c.E)
-			if err != nil {
-				vc.specError(c, err)
-				continue
-			}
 			lbl := fmt.Sprint(j)
 			if c.Label != "" {
 				lbl = c.Label
 			}
-			ob := vc.newObl(fmt.Sprintf("%s/post/%s", relKey(fr.fn), lbl), "post", c.Tags, c.Text, pos)
-			vc.assertAt(n, f, ob)
+			parts := conjuncts(c.E)
+			for k, pe := range parts {
+				f, err := sc.formula(pe)
+				if err != nil {
+					vc.specError(c, err)
+					continue
+				}
+				name := fmt.Sprintf("%s/post/%s", relKey(fr.fn), lbl)
+				text := c.Text
+				if len(parts) > 1 {
+					name = fmt.Sprintf("%s.%d", name, k+1)
+					text = pe.String()
+				}
+				ob := vc.newObl(name, "post", c.Tags, text, pos)
+				vc.assertAt(n, f, ob)
+			}
 		}
 		vc.frameObligations(fr, n, sc, pos)
 	}
@@ -480,6 +501,9 @@ func (p *Prog) VerifyFunc(fn *ssa.Function, opts VerifyOpts) *FuncResult {
 		fr.UsedLib = append(fr.UsedLib, k)
 	}
 	sort.Strings(fr.UsedLib)
+	for c := range vc.calledContracts {
+		fr.Called = append(fr.Called, c)
+	}
 	fr.BuildSecs = time.Since(t0).Seconds()
 	t1 := time.Now()
 	var real, smoke []*Obligation
@@ -527,6 +551,9 @@ func (p *Prog) VerifyFunc(fn *ssa.Function, opts VerifyOpts) *FuncResult {
 						or.Status = "inconsistent"
 					default:
 						or.Status = "undecided"
+						if strings.Contains(r.Detail, ":error:") {
+							or.Status = "solver-error"
+						}
 					}
 					mu.Lock()
 					results[ob] = or
